@@ -2,7 +2,7 @@
    subsystem), theorems only.  Model: C06/Model.v ([step true] = the code with fixes/F06.patch,
    [step false] = the original code).  Each theorem is closed by a lemma of Proofs / Order / Limits /
    InOrder / Exact / Refute and followed by Print Assumptions. *)
-From CF Require Import Common.Bytes C06.Model C06.Proofs C06.Order C06.Limits C06.InOrder.
+From CF Require Import Common.Bytes C06.Model C06.Proofs C06.Order C06.Limits C06.InOrder C06.Exact C06.Refute.
 Open Scope Z_scope.
 
 (* ---------------------------------------------------------------- protocol limits *)
@@ -41,7 +41,7 @@ Print Assumptions C06_read_in_order_exact.
 Theorem C06_write_in_order_exact : forall plan s1 i a d fl s2 tr2,
   wf_event (EWrite i a d fl) ->
   c_leaked (s_cl s1) = false ->
-  InOrder.write_idle (s_cl s1) i ->
+  write_idle (s_cl s1) i ->
   (forall k, (s_n s1 <= k)%nat -> plan k = 0) ->
   sys_run true plan s1 (SOp (EWrite i a d fl) :: deliver_from (length (s_log s1)) (nchunks (zlen d) 25)) = (s2, tr2) ->
   length (filter is_send tr2) = nchunks (zlen d) 25 /\
@@ -52,9 +52,59 @@ Theorem C06_write_in_order_exact : forall plan s1 i a d fl s2 tr2,
                    | _ => True end) tr2 /\
   (forall x, s_mem s2 i x = mwrite (s_mem s1) i a d i x) /\
   (forall j x, j <> i -> s_mem s2 j x = s_mem s1 j x) /\
-  InOrder.write_idle (s_cl s2) i.
+  write_idle (s_cl s2) i.
 Proof. exact write_in_order. Qed.
 Print Assumptions C06_write_in_order_exact.
+
+(* ---------------------------------------------------------------- exactness under any reply schedule *)
+(* The property asks for exactness under duplicated, delayed and refused replies for all sequences of requests.
+   At full strength (C06_read_exact_full / C06_write_exact_full: any delivery of any reply ever produced) this
+   is FALSE for the code as it is and stays false with F06 repaired (finding F06b, theorems _refuted below):
+   a reply that outlived its request is taken for the answer of a later request to the same memory and
+   address.  What holds (the _partial theorems): every delivered reply may be late, duplicated, out of order
+   or a refusal, as long as it answers a packet of the request that is still active ([all_fresh]). *)
+Definition C06_read_exact_full : Prop := read_exact_full.
+Definition C06_write_exact_full : Prop := write_exact_full.
+
+(* After any history pre: a read of [a, a+n) of memory i that is accepted while no write to i is queued,
+   followed by any history mid without writes to i (reads and writes on other memories, disconnects, any
+   fresh deliveries): whenever it is notified as done, the data are exactly the bytes the server holds in
+   [a, a+n), and that memory did not change. *)
+Theorem C06_read_exact_partial : forall plan m0 pre s1 tr1 i a n mid s2 tr2,
+  sys_run true plan (sys_init m0) pre = (s1, tr1) ->
+  wf_event (ERead i a n) -> Forall wf_sevent mid ->
+  rd_get i (c_reads (s_cl s1)) = None ->
+  write_idle (s_cl s1) i ->
+  Forall (no_write_to i) mid ->
+  all_fresh true plan s1 (SOp (ERead i a n) :: mid) = true ->
+  sys_run true plan s1 (SOp (ERead i a n) :: mid) = (s2, tr2) ->
+  forall i' a' d, In (OReadOk (c_next (s_cl s1)) i' a' d) tr2 ->
+    i' = i /\ a' = a /\ d = mread (s_mem s2) i a (Z.to_nat n) /\ (forall x, s_mem s2 i x = s_mem s1 i x).
+Proof. exact read_exact. Qed.
+Print Assumptions C06_read_exact_partial.
+
+(* A write of d at a of memory i issued on an idle queue, followed by any history without further writes
+   to i: whenever it is notified as done, the image of memory i is the old image with d over [a, a+|d|)
+   and unchanged elsewhere (definition of mwrite). *)
+Theorem C06_write_exact_partial : forall plan m0 pre s1 tr1 i a d fl mid s2 tr2,
+  sys_run true plan (sys_init m0) pre = (s1, tr1) ->
+  wf_event (EWrite i a d fl) -> Forall wf_sevent mid ->
+  write_idle (s_cl s1) i ->
+  Forall (no_write_to i) mid ->
+  all_fresh true plan s1 (SOp (EWrite i a d fl) :: mid) = true ->
+  sys_run true plan s1 (SOp (EWrite i a d fl) :: mid) = (s2, tr2) ->
+  forall i' a', In (OWriteOk (c_next (s_cl s1)) i' a') tr2 ->
+    i' = i /\ a' = a /\ (forall x, s_mem s2 i x = mwrite (s_mem s1) i a d i x).
+Proof. exact write_exact. Qed.
+Print Assumptions C06_write_exact_partial.
+
+Theorem C06_read_exact_full_refuted : ~ C06_read_exact_full.
+Proof. exact read_exact_full_refuted. Qed.
+Print Assumptions C06_read_exact_full_refuted.
+
+Theorem C06_write_exact_full_refuted : ~ C06_write_exact_full.
+Proof. exact write_exact_full_refuted. Qed.
+Print Assumptions C06_write_exact_full_refuted.
 
 (* ---------------------------------------------------------------- exactly one notification *)
 (* After every history, every request ever accepted (uid u below the counter) is exactly one of: still
